@@ -52,6 +52,7 @@ StringDictionaryRPHTFC::StringDictionaryRPHTFC(IteratorDictString *it,
     this->bucketsize = 2;
   } else
     this->bucketsize = bucketsize;
+  bucketsize = this->bucketsize;
 
   // 1) Bulding the Front-Coding representation
   StringDictionaryPFC *dict = new StringDictionaryPFC(it, this->bucketsize);
